@@ -308,7 +308,8 @@ def stride_family_module(k, seed):
     m.namespace = "v::ns"
     st_ = M.Struct("struct", "Tab")
     st_.fields.append(M.Field("count", ("n", 0), ("n", 1), M.Type("UInt", 8)))
-    stride = rnd.choice([12, 20, 10, 6, 24, 40, 3, 5, 36])
+    # odd members of the family: strides above 64 that are not multiples of 64
+    stride = rnd.choice([72, 96, 100, 80, 120, 192, 144]) if k % 2 else rnd.choice([12, 20, 10, 6, 24, 40, 3, 5, 36])
     base = rnd.choice([8, 4, 16, 2, 1])
     w = rnd.choice([8, 4, 2, 8, 4])
     start = ("op", "+", ("n", base), ("op", "*", ("r", ("count",)), ("n", stride)))
